@@ -102,7 +102,8 @@ def tlc(run, workdir, module, cfg, workers=1, xmx='3g', extra=(), timeout=1800, 
         cmd = ['java', '-XX:+UseParallelGC', '-XX:ParallelGCThreads=%d' % max(2, min(8, workers)), '-Xmx' + xmx, '-Xss256m']
     if deque:
         cmd.append('-Dtlc2.tool.queue.IStateQueue=StateDeque')
-    cmd += ['-cp', JAR, 'tlc2.TLC', '-workers', str(workers), '-metadir', md, '-config', cfg]
+    # TLC unpacks its standard modules into java.io.tmpdir (one directory per run, never removed): keep that inside the run's scratch area
+    cmd += ['-Djava.io.tmpdir=' + md, '-cp', JAR, 'tlc2.TLC', '-workers', str(workers), '-metadir', md, '-config', cfg]
     if simulate:
         cmd += ['-simulate', 'num=%d' % simulate, '-depth', str(depth), '-seed', str(seed)]
     cmd += list(extra) + [module]
@@ -212,7 +213,8 @@ def stage_ind(run, st):
         od = tempfile.mkdtemp(prefix='apa-', dir=wd)
         cmd = ['apalache-mc', 'check', '--config=' + c, '--out-dir=' + od] + args + [st['module'] + '.tla']
         try:
-            p = subprocess.run(cmd, cwd=wd, capture_output=True, text=True, timeout=st.get('timeout', 600), stdin=subprocess.DEVNULL)
+            p = subprocess.run(cmd, cwd=wd, capture_output=True, text=True, timeout=st.get('timeout', 600), stdin=subprocess.DEVNULL,
+                               env=dict(os.environ, TMPDIR=od))      # (the launcher makes its SANY directory under TMPDIR)
         except (subprocess.TimeoutExpired, OSError) as ex:
             return name, ' '.join(cmd[:2] + args), None, 'apalache-mc could not be run: %r' % (ex,)
         out = p.stdout + p.stderr
